@@ -15,6 +15,36 @@ CHECKS = {
              "drop-padding / reject evaluated on the observation). Exhaustive small-scope + seeded random beyond.",
         technique="TLA+ state machine + TLC exhaustive model checking; TLC trace validation of recorded tokenizer calls",
         ref="5/C11"),
+    "C01": dict(
+        text="Rules.tla states the relational contract of one rewrite step over pointer-level heaps and their terms; Expr.tla gives the independent exact "
+             "semantics. Every rule instance (11) is applied by the real code at every node where the real can_apply_to is true, on clones-from-root of "
+             "TLC-emitted grammar sentences, term-level trees in every grouping, embeddings, the repo's own examples and generator outputs; TLC validates each "
+             "recorded step: the whole expression (the '='-free side for equations) has the same value at 12 assignments in two prime fields wherever both are defined.",
+        technique="TLA+ step contract + exact field semantics; TLC trace validation of every applicable (tree, rule, option, node) step",
+        ref="5/C01"),
+    "C02": dict(
+        text="Same step traces on equations (addends at top level and inside products, quotients, powers, negations, subtrahends, function arguments; zero and unit "
+             "coefficients; one and two variables). TLC decides SameSolutions by enumerating the complete solution sets over F_31, F_37, F_101 (one variable) or "
+             "F_13^2 and F_17^2 (two variables), and rejects a balanced move that creates a division by the literal 0.",
+        technique="TLA+ step contract; complete solution sets over small prime fields computed by TLC on recorded steps",
+        ref="5/C02"),
+    "C04": dict(
+        text="For every tree the parser produces from a TLC-emitted sentence (with operand variants) and for the result of every recorded rewrite step, the real "
+             "str() output is parsed back by the real parser and TLC validates: it parses, has the same value (solution set for equations) and the same variables.",
+        technique="TLC trace validation of print/re-parse round trips against the exact field semantics",
+        ref="5/C04"),
+    "C06": dict(
+        text="Probe traces (can_apply_to on every node twice with heap snapshots around, find_nodes with r_index of every node, find_node) and step traces for every "
+             "rule instance over a broad start set; TLC validates: asking does not change any pointer or payload, answers are repeatable, find_nodes is exactly the "
+             "applicable nodes in in-order with their indices recorded, find_node is the first, and every applicable step completes and yields an expression.",
+        technique="TLA+ probe/step contract; TLC trace validation of applicability probes and applications",
+        ref="5/C06"),
+    "C07": dict(
+        text="Step traces with embedding contexts (start trees placed under + - * / ^ neg sgn and as equation sides); heaps are projected over one object universe "
+             "(source tree, working clone, new nodes). TLC validates: result links consistent, arity by kind, no node object twice, root without parent; sibling subtrees "
+             "off the path to the rewritten node's parent identical; variable set unchanged; the source tree pointer- and payload-identical; no node shared with it.",
+        technique="TLA+ heap well-formedness + context contract; TLC trace validation of before/after heaps",
+        ref="5/C07"),
     "C03": dict(
         text="The documented grammar is written as a reference parser in TLA+ (Grammar.tla, from the docs and the property text, not from the code). "
              "TLC explores it over all token strings up to the bound (operand-order, kinds-only and variable lemmas) and emits every sentence; all token "
